@@ -601,7 +601,7 @@ def run(tier):
             if not ok:
                 rep.violation("sqfs2tar-entry", "%s: entry %r reads back differently through Python tarfile" % (os.path.basename(s.dir), p))
                 break
-        for reader in (["tar", "-t", "-f", "-"], ["bsdtar", "-t", "-f", "-"]):
+        for reader in [r_ for r_ in (["tar", "-t", "-f", "-"], ["bsdtar", "-t", "-f", "-"]) if vlib.have(r_[0])]:
             rc, o, e = sh(reader, stdin=tar1, timeout=60)
             if rc != 0:
                 rep.violation("sqfs2tar-malformed", "%s rejects sqfs2tar output of %s: %s" % (reader[0], os.path.basename(s.dir), e.decode(errors="replace")[-150:]))
